@@ -1,8 +1,8 @@
 #!/usr/bin/env python3
-"""keep_seed.py <id> <property> "<what it needs to manifest>"  -- copies a confirmed sub-agent change into /verif/seeded/<id>/"""
+"""keep_seed.py <id> <property> "<what it needs to manifest>" [worktree]  -- copies a confirmed sub-agent change into /verif/seeded/<id>/"""
 import json, os, shutil, sys
 sid, prop, needs = sys.argv[1], sys.argv[2], sys.argv[3]
-src = "/tmp/seed_%s/_seed_out" % sid
+src = (sys.argv[4] if len(sys.argv) > 4 else "/tmp/seed_%s" % sid) + "/_seed_out"
 dst = "/verif/seeded/%s" % sid
 os.makedirs(dst, exist_ok=True)
 for f in ("patch.diff", "demo.cpp", "build_and_run.sh", "README.md"):
